@@ -1,5 +1,6 @@
 import ZV.Model.C18
 import ZV.Model.C18Dom
+import ZV.Model.C18Time
 /-! line protocol for C18 (shared with C20):
     `c18 m <schema> <p=tagstring> <value>`   →  `ok <hex>` | `err`
     `c18 u <schema> <p=tagstring> <hex>`     →  `ok <value> <len(rest)>` | `err`
@@ -7,7 +8,17 @@ import ZV.Model.C18Dom
                                                   sends the values of ITS documented domain and prints `in`)
     schema / value are `;`-separated prefix-notation token lists:
       schema:  i64 i32 enum big bool oid bits oct str raw flag | S<n> (p=<tagstring> schema)×n | L schema | LS schema
-      value:   i<dec> | t | f | x<hex> | n | o<a.b.c> | b<bitlen>:<hex> | r<cls>:<tag>:<t|f>:<hex>:<hex> | V<n> value×n -/
+      value:   i<dec> | t | f | x<hex> | n | o<a.b.c> | b<bitlen>:<hex> | r<cls>:<tag>:<t|f>:<hex>:<hex> | V<n> value×n
+    time.Time (models `ZV.Model.Time`, `ZV.Model.C18Time`; a time is the token `T<unix>.<nsec>@<zone offset>`):
+    `c18 tm time <p=tagstring> <time>`        →  `ok <hex>` | `err`              MarshalWithParams of a bare time.Time
+    `c18 tm26 time <p=tagstring> <time>`      →  the same
+    `c18 tu time <p=tagstring> <hex>`         →  `ok <time> <len(rest)>` | `err`  strict UnmarshalWithParams into a time.Time
+    `c18 tp <um|us|g> <hex>`                  →  `ok <time>` | `err`              time.Parse with one of the three layouts
+    `c18 tf <um|us|g> <time>`                 →  `ok <hex>`                       Time.Format
+    `c18 tc <unix> <off>`                     →  `y/m/d/h/mi/s`                   Time.Date() / Time.Clock() in a fixed zone
+    `c18 td <y> <m> <d> <h> <mi> <s> <off>`   →  `<unix>`                         time.Date(…).Unix()
+    `c18 tpc <u|g> <s|p> <hex>`               →  `ok <time>` | `err`              parseUTCTime / parseGeneralizedTime (strict / permissive)
+    `c18 tac <u|g> <time>`                    →  `ok <hex>` | `err`               appendUTCTime / appendGeneralizedTime -/
 namespace ZV.C18
 
 def dropPrefix (s : String) (n : Nat) : String := (s.drop n).toString
@@ -158,7 +169,89 @@ def showBytesRes (r : Res Bytes) : String :=
 def parseP (s : String) : Option Params :=
   if s.startsWith "p=" then some (parseFieldParameters (dropPrefix s 2)) else none
 
-def handle (args : List String) : String :=
+/-! ### time.Time -/
+open ZV.Time in
+def parseTimeTok (tok : String) : Option GoTime :=
+  if tok.startsWith "T" then
+    match (dropPrefix tok 1).splitOn "@" with
+    | [sn, off] =>
+      (match sn.splitOn "." with
+       | [s, n] =>
+         (match parseInt s, n.toNat?, parseInt off with
+          | some s, some n, some o => some { unix := s, off := o, nsec := n }
+          | _, _, _ => none)
+       | _ => none)
+    | _ => none
+  else none
+
+open ZV.Time in
+def showTimeTok (t : GoTime) : String := "T" ++ toString t.unix ++ "." ++ toString t.nsec ++ "@" ++ toString t.off
+
+open ZV.Time in
+def showTimeRes (r : Res GoTime) : String :=
+  match r with
+  | .ok t => "ok " ++ showTimeTok t
+  | .err => "err"
+  | .panic => "panic"
+
+open ZV.Time in
+def layoutOf (s : String) : Option (List Std) :=
+  if s == "um" then some layoutUTCMin else if s == "us" then some layoutUTCSec
+  else if s == "g" then some layoutGen else none
+
+open ZV.Time in
+def handleTime (args : List String) : Option String :=
+  match args with
+  | [op, "time", p, a] =>
+    if op == "tm" || op == "tm26" then
+      (match parseP p, parseTimeTok a with
+       | some p, some t => some (showBytesRes (TimeField.makeTimeField p t))
+       | _, _ => some "bad-op")
+    else if op == "tu" then
+      (match parseP p, ofHex a with
+       | some p, some bs =>
+         some (match TimeField.parseTimeField false p bs with
+           | .ok (t, rest) => "ok " ++ showTimeTok t ++ " " ++ toString rest.length
+           | .err => "err"
+           | .panic => "panic")
+       | _, _ => some "bad-op")
+    else none
+  | ["tp", l, h] =>
+    (match layoutOf l, ofHex h with
+     | some l, some bs => some (match parse l bs with | some t => "ok " ++ showTimeTok t | none => "err")
+     | _, _ => some "bad-op")
+  | ["tf", l, tok] =>
+    (match layoutOf l, parseTimeTok tok with
+     | some l, some t => some ("ok " ++ toHex (format l t))
+     | _, _ => some "bad-op")
+  | ["tc", u, o] =>
+    (match parseInt u, parseInt o with
+     | some u, some o =>
+       let c := ofUnix u o
+       some ("/".intercalate [toString c.year, toString c.month, toString c.day, toString c.hour, toString c.min, toString c.sec])
+     | _, _ => some "bad-op")
+  | ["td", y, m, d, h, mi, s, o] =>
+    (match parseInt y, m.toNat?, d.toNat?, h.toNat?, mi.toNat?, s.toNat?, parseInt o with
+     | some y, some m, some d, some h, some mi, some s, some o =>
+       some (toString (toUnix { year := y, month := m, day := d, hour := h, min := mi, sec := s, off := o }))
+     | _, _, _, _, _, _, _ => some "bad-op")
+  | ["tpc", k, mode, h] =>
+    (match ofHex h with
+     | some bs =>
+       if k == "u" then some (showTimeRes (EA.parseUTCTime (mode == "p") bs))
+       else if k == "g" then some (showTimeRes (EA.parseGeneralizedTime (mode == "p") bs))
+       else some "bad-op"
+     | none => some "bad-op")
+  | ["tac", k, tok] =>
+    (match parseTimeTok tok with
+     | some t =>
+       if k == "u" then some (showBytesRes (EA.appendUTCTime t))
+       else if k == "g" then some (showBytesRes (EA.appendGeneralizedTime t))
+       else some "bad-op"
+     | none => some "bad-op")
+  | _ => none
+
+def handleMain (args : List String) : String :=
   match args with
   | ["m", sc, p, v] =>
     (match parseSchema sc, parseP p, parseVal v with
@@ -173,5 +266,10 @@ def handle (args : List String) : String :=
      | some s, some p, some bs => showUnm (unmarshal false s p bs)
      | _, _, _ => "bad-op")
   | _ => "bad-op"
+
+def handle (args : List String) : String :=
+  match handleTime args with
+  | some r => r
+  | none => handleMain args
 
 end ZV.C18
